@@ -401,6 +401,147 @@ def run(case, ctx):
         OPS.pop("__noop__", None)
 
 
+# ---------------------------------------------------------------------------------------------------------------------
+# stage `rehook`: a user callback that fails while an extended on_trait_change listener re-hooks itself onto a newly
+# assigned intermediate object.  The callback (a `_name_default` method or a property getter of the NEW object) runs
+# inside the library's own link-change handler, so the assignment itself is complete and raises nothing; whatever the
+# listener managed to attach must still be taken off again when that object is replaced ("every subsequent operation
+# behaves exactly as on an object that never saw the failure").  Expectations are absolute, not twin-based: after the
+# object that saw the failure has been replaced, nothing on it calls the listener, the replacement is fully live, and a
+# removal of the registration silences everything.
+class Sensor(HasTraits):
+    reading = Int
+
+
+class BoardD(HasTraits):
+    sensor = Instance(Sensor)
+
+    def _sensor_default(self):
+        tick("board_default")
+        return Sensor()
+
+
+class BoardG(HasTraits):
+    _s = Instance(Sensor)
+    sensor = Property(Instance(Sensor))
+
+    def _get_sensor(self):
+        tick("board_getter")
+        return self._s
+
+    def _set_sensor(self, v):
+        old, self._s = self._s, v
+        self.trait_property_changed("sensor", old, v)
+
+
+REHOOK_NAMES = ["board.sensor.reading", "board:sensor.reading", "board.sensor:reading", "board:sensor:reading"]
+
+
+def rehook_strategy(tier):
+    return st.fixed_dictionaries({
+        "name": st.sampled_from(REHOOK_NAMES), "kind": st.sampled_from(["default", "getter"]),
+        "when": st.sampled_from([0, 1]), "mech": st.sampled_from(["call", "decorator"]),
+        "later": st.lists(st.sampled_from(["old.sensor=new", "old.reading", "new.reading", "new.sensor=new", "board=again"]), max_size=4),
+    })
+
+
+def rehook_run(case, ctx):
+    from traits.api import on_trait_change as otc_dec
+    Board = BoardD if case["kind"] == "default" else BoardG
+    name = case["name"]
+    calls = []
+
+    def fresh_board(explicit):
+        if case["kind"] == "getter":
+            return Board(_s=Sensor())
+        return Board(sensor=Sensor()) if explicit else Board()
+
+    if case["mech"] == "decorator":
+        class O(HasTraits):
+            board = Instance(HasTraits)
+
+            @otc_dec(name)
+            def _deep(self):
+                calls.append("deep")
+    else:
+        class O(HasTraits):
+            board = Instance(HasTraits)
+    push_exception_handler(handler=lambda *a: None, reraise_exceptions=False, main=True)
+    ctx.evaluations -= 1
+    try:
+        def attempt(k, exc):
+            del calls[:]
+            o = O()
+            h = lambda: calls.append("deep")
+            if case["mech"] == "call":
+                o.on_trait_change(h, name)
+            if case["when"] == 1:
+                o.board = fresh_board(True)
+            b = fresh_board(False)
+            PLAN.update(k=k, exc=exc, count=0, sites=[])
+            err = None
+            try:
+                o.board = b
+            except Exception as e:
+                err = e
+            n = PLAN["count"]
+            PLAN.update(k=None, exc=None, count=0, sites=[])
+            return o, b, h, err, n
+        _, _, _, err0, n = attempt(None, None)
+        if err0 is not None:
+            ctx.fail("rehook/fault-free-raised", "%r: assignment raised %r without any injected fault" % (case, err0))
+        for k in range(1, n + 1):
+            for exc_name, exc in EXCS.items():
+                ctx.add_evals(1)
+                ctx.nontrivial(key=[case, k, exc_name])
+                ctx.label("site:rehook-" + case["kind"])
+                o, b, h, err, _ = attempt(k, exc)
+                where = "%r, callback #%d/%d raises %s during `o.board = b`" % (case, k, n, exc_name)
+                if err is not None:
+                    ctx.fail("handler/exception-escaped", "%s: %r reached the caller of the assignment" % (where, err))
+                if o.board is not b:
+                    ctx.fail("handler/operation-incomplete", "%s: the assignment did not take place" % where)
+                b2 = fresh_board(True)
+                o.board = b2                       # the object that saw the failure is replaced
+                old, new = b, b2
+                steps = ["old.sensor=new", "old.reading", "new.reading"] + list(case["later"]) + ["old.reading", "new.reading"]
+                for stp in steps:
+                    del calls[:]
+                    if stp == "old.sensor=new":
+                        old.sensor = Sensor()
+                        want = 0
+                    elif stp == "old.reading":
+                        old.sensor.reading += 1
+                        want = 0
+                    elif stp == "new.reading":
+                        new.sensor.reading += 1
+                        want = 1
+                    elif stp == "new.sensor=new":
+                        new.sensor = Sensor()
+                        want = None               # (whether a link change is reported depends on '.' / ':'; not judged here)
+                    else:
+                        old, new = new, fresh_board(True)
+                        o.board = new
+                        want = None
+                    if want is not None and len(calls) != want:
+                        ctx.fail("handler/later-behaviour", "%s: after the object was replaced, step %r of %r calls the listener %d time(s), "
+                                 "expected %d" % (where, stp, steps, len(calls), want))
+                if case["mech"] == "call":
+                    o.on_trait_change(h, name, remove=True)
+                    del calls[:]
+                    new.sensor.reading += 1
+                    b.sensor.reading += 1
+                    new.sensor = Sensor()
+                    o.board = fresh_board(True)
+                    if calls:
+                        ctx.fail("handler/later-behaviour", "%s: the listener is still called %d time(s) after its removal" % (where, len(calls)))
+    finally:
+        pop_exception_handler()
+        PLAN.update(k=None, exc=None, count=0, sites=[])
+
+
 def stages(tier):
     return [{"name": "inject", "kind": "hyp", "strategy": strategy, "run": run,
-             "examples": {"quick": 5000, "thorough": 100000}, "shards": 16}]
+             "examples": {"quick": 5000, "thorough": 100000}, "shards": 16},
+            {"name": "rehook", "kind": "hyp", "strategy": rehook_strategy, "run": rehook_run,
+             "examples": {"quick": 400, "thorough": 8000}, "shards": 4}]
